@@ -59,31 +59,43 @@ Section NlriProofs.
   Definition v6_noslash : Prop := forall a, a < 2 ^ 128 -> existsb (fun c => c =? SLASH) (v6p a) = false.
   Definition v6_range : Prop := forall s a, v6r s = Some a -> a < 2 ^ 128.
 
+  Lemma octets_ok_true : forall w a m, wf_prefix w a m -> octets_ok w a m = true.
+  Proof. intros w a m [_ [_ H]]. unfold octets_ok. rewrite H. reflexivity. Qed.
+
+  Lemma wf_prefix_4 : forall a m, wf_prefix 4 a m -> a < 4294967296 /\ m <= 32.
+  Proof. intros a m [H1 [H2 _]]. change (256 ^ 4) with 4294967296 in H1. lia. Qed.
+  Lemma wf_prefix_16 : forall a m, wf_prefix 16 a m -> a < 2 ^ 128 /\ m <= 128.
+  Proof. intros a m [H1 [H2 _]]. change (256 ^ 16) with (2 ^ 128) in H1. lia. Qed.
+
   Theorem nlri_roundtrip : forall n, v6_contract v6p v6r -> v6_noslash -> wf_nlri n ->
     net_from_api v6r (nlri_to_api v6p n) = Some n.
   Proof.
     intros n [Hrt Hn4] Hns Hwf. destruct n as [a m|a m|ls a m|ls a m|ls d a m|ls d a m]; cbn [wf_nlri] in Hwf;
       cbn [nlri_to_api net_from_api].
-    5: { destruct Hwf as [Ha [Hm [Hd [Hne [Hl Hb]]]]]. rewrite rd_roundtrip, ip4_roundtrip by assumption.
-         destruct (N.ltb_spec 32 m); [lia|]. rewrite (labels_in_range ls Hl). destruct ls as [|l ls]; [contradiction|]. cbn [length Nat.eqb orb].
-         destruct (N.ltb_spec 255 (24 * N.of_nat (S (length ls)) + 64 + m)); [cbn [length] in Hb; lia|].
-         reflexivity. }
-    5: { destruct Hwf as [Ha [Hm [Hd [Hne [Hl Hb]]]]]. rewrite rd_roundtrip, Hn4, Hrt by assumption.
-         destruct (N.ltb_spec 128 m); [lia|]. rewrite (labels_in_range ls Hl). destruct ls as [|l ls]; [contradiction|]. cbn [length Nat.eqb orb].
-         destruct (N.ltb_spec 255 (24 * N.of_nat (S (length ls)) + 64 + m)); [cbn [length] in Hb; lia|].
-         reflexivity. }
-    - destruct Hwf as [Ha Hm]. rewrite ip4_noslash, ip4_roundtrip by exact Ha.
-      destruct (N.ltb_spec 255 m); [lia|]. destruct (N.ltb_spec 32 m); [lia|]. reflexivity.
-    - destruct Hwf as [Ha Hm]. rewrite Hns, Hn4, Hrt by exact Ha.
-      destruct (N.ltb_spec 255 m); [lia|]. destruct (N.ltb_spec 128 m); [lia|]. reflexivity.
-    - destruct Hwf as [Ha [Hm [Hne [Hl Hb]]]]. rewrite ip4_roundtrip by exact Ha.
-      destruct (N.ltb_spec 32 m); [lia|]. rewrite (labels_in_range ls Hl). destruct ls as [|l ls]; [contradiction|]. cbn [length Nat.eqb orb].
-      destruct (N.ltb_spec 255 (24 * N.of_nat (S (length ls)) + m)); [cbn [length] in Hb; lia|].
-      reflexivity.
-    - destruct Hwf as [Ha [Hm [Hne [Hl Hb]]]]. rewrite Hn4, Hrt by exact Ha.
-      destruct (N.ltb_spec 128 m); [lia|]. rewrite (labels_in_range ls Hl). destruct ls as [|l ls]; [contradiction|]. cbn [length Nat.eqb orb].
-      destruct (N.ltb_spec 255 (24 * N.of_nat (S (length ls)) + m)); [cbn [length] in Hb; lia|].
-      reflexivity.
+    - pose proof (wf_prefix_4 a m Hwf) as [Ha Hm]. rewrite ip4_noslash, ip4_roundtrip by exact Ha.
+      destruct (N.ltb_spec 255 m); [lia|]. destruct (N.ltb_spec 32 m); [lia|].
+      rewrite (octets_ok_true 4 a m Hwf). reflexivity.
+    - pose proof (wf_prefix_16 a m Hwf) as [Ha Hm]. rewrite Hns, Hn4, Hrt by exact Ha.
+      destruct (N.ltb_spec 255 m); [lia|]. destruct (N.ltb_spec 128 m); [lia|].
+      rewrite (octets_ok_true 16 a m Hwf). reflexivity.
+    - destruct Hwf as [Hp [Hne [Hl Hb]]]. pose proof (wf_prefix_4 a m Hp) as [Ha Hm]. rewrite ip4_roundtrip by exact Ha.
+      destruct (N.ltb_spec 32 m); [lia|]. rewrite (labels_in_range ls Hl), (octets_ok_true 4 a m Hp).
+      destruct ls as [|l ls]; [contradiction|]. cbn [length Nat.eqb orb negb].
+      destruct (N.ltb_spec 255 (24 * N.of_nat (S (length ls)) + m)); [cbn [length] in Hb; lia|]. reflexivity.
+    - destruct Hwf as [Hp [Hne [Hl Hb]]]. pose proof (wf_prefix_16 a m Hp) as [Ha Hm]. rewrite Hn4, Hrt by exact Ha.
+      destruct (N.ltb_spec 128 m); [lia|]. rewrite (labels_in_range ls Hl), (octets_ok_true 16 a m Hp).
+      destruct ls as [|l ls]; [contradiction|]. cbn [length Nat.eqb orb negb].
+      destruct (N.ltb_spec 255 (24 * N.of_nat (S (length ls)) + m)); [cbn [length] in Hb; lia|]. reflexivity.
+    - destruct Hwf as [Hp [Hd [Hne [Hl Hb]]]]. pose proof (wf_prefix_4 a m Hp) as [Ha Hm].
+      rewrite rd_roundtrip, ip4_roundtrip by assumption.
+      destruct (N.ltb_spec 32 m); [lia|]. rewrite (labels_in_range ls Hl), (octets_ok_true 4 a m Hp).
+      destruct ls as [|l ls]; [contradiction|]. cbn [length Nat.eqb orb negb].
+      destruct (N.ltb_spec 255 (24 * N.of_nat (S (length ls)) + 64 + m)); [cbn [length] in Hb; lia|]. reflexivity.
+    - destruct Hwf as [Hp [Hd [Hne [Hl Hb]]]]. pose proof (wf_prefix_16 a m Hp) as [Ha Hm].
+      rewrite rd_roundtrip, Hn4, Hrt by assumption.
+      destruct (N.ltb_spec 128 m); [lia|]. rewrite (labels_in_range ls Hl), (octets_ok_true 16 a m Hp).
+      destruct ls as [|l ls]; [contradiction|]. cbn [length Nat.eqb orb negb].
+      destruct (N.ltb_spec 255 (24 * N.of_nat (S (length ls)) + 64 + m)); [cbn [length] in Hb; lia|]. reflexivity.
   Qed.
 
   Lemma labels_wf : forall ls m, existsb (fun l => 1048575 <? l) ls = false -> Nat.eqb (length ls) 0 = false ->
@@ -98,44 +110,48 @@ Section NlriProofs.
     - lia.
   Qed.
 
+  Lemma wf_prefix_intro : forall w a m, a < 256 ^ w -> m <= 8 * w -> octets_ok w a m = true -> wf_prefix w a m.
+  Proof. intros w a m Ha Hm Ho. unfold octets_ok in Ho. apply N.eqb_eq in Ho. repeat split; assumption. Qed.
+
+  (* the five guards of the labeled / VPN arms *)
+  Lemma guards_inv : forall (b1 b2 b3 b4 b5 : bool), b1 || b2 || b3 || b4 || negb b5 = false ->
+    b1 = false /\ b2 = false /\ b3 = false /\ b4 = false /\ b5 = true.
+  Proof. intros [] [] [] [] []; cbn; intros H; try discriminate; repeat split; reflexivity. Qed.
+
   Theorem net_from_api_wf : forall x n, v6_range -> api_nlri_in_range x -> net_from_api v6r x = Some n -> wf_nlri n.
   Proof.
     intros x n Hrg Hin H. destruct x as [|s len|ls s len|ls d s len|]; cbn [net_from_api] in H; try discriminate.
-    3: { cbn [api_nlri_in_range] in Hin.
-         destruct (rd_from_api d) as [d'|] eqn:Ed; [|discriminate]. pose proof (rd_from_api_wf d d' Hin Ed) as Hd.
-         destruct (ip4_of_string s) as [a|] eqn:E4.
-         + destruct (N.ltb_spec 32 len); [discriminate|]. cbn [orb] in H.
-           destruct (existsb _ ls) eqn:Ex; [discriminate|]. cbn [orb] in H.
-           destruct (Nat.eqb (length ls) 0) eqn:El; [discriminate|]. cbn [orb] in H.
-           destruct (255 <? _) eqn:Eb in H; [discriminate|]. injection H as <-.
-           split; [eapply ip4_of_string_lt; eassumption|]. split; [lia|]. split; [exact Hd|].
-           apply labels_wf; [exact Ex|exact El|]. rewrite N.add_assoc. exact Eb.
-         + destruct (v6r s) as [a|] eqn:E6; [|discriminate].
-           destruct (N.ltb_spec 128 len); [discriminate|]. cbn [orb] in H.
-           destruct (existsb _ ls) eqn:Ex; [discriminate|]. cbn [orb] in H.
-           destruct (Nat.eqb (length ls) 0) eqn:El; [discriminate|]. cbn [orb] in H.
-           destruct (255 <? _) eqn:Eb in H; [discriminate|]. injection H as <-.
-           split; [eapply Hrg; eassumption|]. split; [lia|]. split; [exact Hd|].
-           apply labels_wf; [exact Ex|exact El|]. rewrite N.add_assoc. exact Eb. }
     - destruct (existsb _ s); [discriminate|].
       destruct (ip4_of_string s) as [a|] eqn:E4.
       + destruct (N.ltb_spec 255 len); [discriminate|]. destruct (N.ltb_spec 32 len); [discriminate|].
-        injection H as <-. split; [eapply ip4_of_string_lt; eassumption|lia].
+        destruct (octets_ok 4 a len) eqn:Eo; [|discriminate]. injection H as <-.
+        apply wf_prefix_intro; [change (256 ^ 4) with 4294967296; eapply ip4_of_string_lt; eassumption|lia|exact Eo].
       + destruct (v6r s) as [a|] eqn:E6; [|discriminate].
         destruct (N.ltb_spec 255 len); [discriminate|]. destruct (N.ltb_spec 128 len); [discriminate|].
-        injection H as <-. split; [eapply Hrg; eassumption|lia].
+        destruct (octets_ok 16 a len) eqn:Eo; [|discriminate]. injection H as <-.
+        apply wf_prefix_intro; [change (256 ^ 16) with (2 ^ 128); eapply Hrg; eassumption|lia|exact Eo].
     - destruct (ip4_of_string s) as [a|] eqn:E4.
-      + destruct (N.ltb_spec 32 len); [discriminate|]. cbn [orb] in H.
-        destruct (existsb _ ls) eqn:Ex; [discriminate|]. cbn [orb] in H.
-        destruct (Nat.eqb (length ls) 0) eqn:El; [discriminate|]. cbn [orb] in H.
-        destruct (255 <? _) eqn:Eb in H; [discriminate|]. injection H as <-.
-        split; [eapply ip4_of_string_lt; eassumption|]. split; [lia|]. apply labels_wf; assumption.
+      + destruct (_ || _) eqn:Eg in H; [discriminate|]. injection H as <-.
+        apply guards_inv in Eg. destruct Eg as [G1 [G2 [G3 [G4 G5]]]]. split.
+        * apply wf_prefix_intro; [change (256 ^ 4) with 4294967296; eapply ip4_of_string_lt; eassumption|lia|exact G5].
+        * apply labels_wf; assumption.
       + destruct (v6r s) as [a|] eqn:E6; [|discriminate].
-        destruct (N.ltb_spec 128 len); [discriminate|]. cbn [orb] in H.
-        destruct (existsb _ ls) eqn:Ex; [discriminate|]. cbn [orb] in H.
-        destruct (Nat.eqb (length ls) 0) eqn:El; [discriminate|]. cbn [orb] in H.
-        destruct (255 <? _) eqn:Eb in H; [discriminate|]. injection H as <-.
-        split; [eapply Hrg; eassumption|]. split; [lia|]. apply labels_wf; assumption.
+        destruct (_ || _) eqn:Eg in H; [discriminate|]. injection H as <-.
+        apply guards_inv in Eg. destruct Eg as [G1 [G2 [G3 [G4 G5]]]]. split.
+        * apply wf_prefix_intro; [change (256 ^ 16) with (2 ^ 128); eapply Hrg; eassumption|lia|exact G5].
+        * apply labels_wf; assumption.
+    - cbn [api_nlri_in_range] in Hin.
+      destruct (rd_from_api d) as [d'|] eqn:Ed; [|discriminate]. pose proof (rd_from_api_wf d d' Hin Ed) as Hd.
+      destruct (ip4_of_string s) as [a|] eqn:E4.
+      + destruct (_ || _) eqn:Eg in H; [discriminate|]. injection H as <-.
+        apply guards_inv in Eg. destruct Eg as [G1 [G2 [G3 [G4 G5]]]]. split; [|split; [exact Hd|]].
+        * apply wf_prefix_intro; [change (256 ^ 4) with 4294967296; eapply ip4_of_string_lt; eassumption|lia|exact G5].
+        * apply labels_wf; [assumption|assumption|]. rewrite N.add_assoc. exact G4.
+      + destruct (v6r s) as [a|] eqn:E6; [|discriminate].
+        destruct (_ || _) eqn:Eg in H; [discriminate|]. injection H as <-.
+        apply guards_inv in Eg. destruct Eg as [G1 [G2 [G3 [G4 G5]]]]. split; [|split; [exact Hd|]].
+        * apply wf_prefix_intro; [change (256 ^ 16) with (2 ^ 128); eapply Hrg; eassumption|lia|exact G5].
+        * apply labels_wf; [assumption|assumption|]. rewrite N.add_assoc. exact G4.
   Qed.
 End NlriProofs.
 
@@ -143,19 +159,19 @@ End NlriProofs.
 Theorem encode_nlri_safe : forall p n, wf_nlri n -> exists b, encode_nlri p n = Ok b.
 Proof.
   intros p n Hwf. destruct n as [a m|a m|ls a m|ls a m|ls d a m|ls d a m]; cbn [wf_nlri] in Hwf; unfold encode_nlri, addr_bytes.
-  5: { destruct Hwf as [_ [Hm [_ [_ [_ Hb]]]]].
-       destruct (N.ltb_spec 255 ((24 * N.of_nat (length ls)) mod 256 + 64 + m)); [lia|]. cbn [andb].
-       destruct (Nat.leb_spec (N.to_nat ((m + 7) / 8)) 4); [|lia]. eexists. reflexivity. }
-  5: { destruct Hwf as [_ [Hm [_ [_ [_ Hb]]]]].
-       destruct (N.ltb_spec 255 ((24 * N.of_nat (length ls)) mod 256 + 64 + m)); [lia|]. cbn [andb].
-       destruct (Nat.leb_spec (N.to_nat ((m + 7) / 8)) 16); [|lia]. eexists. reflexivity. }
-  - destruct Hwf as [_ Hm]. destruct (Nat.leb_spec (N.to_nat ((m + 7) / 8)) 4); [|lia]. eexists. reflexivity.
-  - destruct Hwf as [_ Hm]. destruct (Nat.leb_spec (N.to_nat ((m + 7) / 8)) 16); [|lia]. eexists. reflexivity.
-  - destruct Hwf as [_ [Hm [_ [_ Hb]]]].
+  - destruct Hwf as [_ [Hm _]]. destruct (Nat.leb_spec (N.to_nat ((m + 7) / 8)) 4); [|lia]. eexists. reflexivity.
+  - destruct Hwf as [_ [Hm _]]. destruct (Nat.leb_spec (N.to_nat ((m + 7) / 8)) 16); [|lia]. eexists. reflexivity.
+  - destruct Hwf as [[_ [Hm _]] [_ [_ Hb]]].
     destruct (N.ltb_spec 255 ((24 * N.of_nat (length ls)) mod 256 + m)); [lia|]. cbn [andb].
     destruct (Nat.leb_spec (N.to_nat ((m + 7) / 8)) 4); [|lia]. eexists. reflexivity.
-  - destruct Hwf as [_ [Hm [_ [_ Hb]]]].
+  - destruct Hwf as [[_ [Hm _]] [_ [_ Hb]]].
     destruct (N.ltb_spec 255 ((24 * N.of_nat (length ls)) mod 256 + m)); [lia|]. cbn [andb].
+    destruct (Nat.leb_spec (N.to_nat ((m + 7) / 8)) 16); [|lia]. eexists. reflexivity.
+  - destruct Hwf as [[_ [Hm _]] [_ [_ [_ Hb]]]].
+    destruct (N.ltb_spec 255 ((24 * N.of_nat (length ls)) mod 256 + 64 + m)); [lia|]. cbn [andb].
+    destruct (Nat.leb_spec (N.to_nat ((m + 7) / 8)) 4); [|lia]. eexists. reflexivity.
+  - destruct Hwf as [[_ [Hm _]] [_ [_ [_ Hb]]]].
+    destruct (N.ltb_spec 255 ((24 * N.of_nat (length ls)) mod 256 + 64 + m)); [lia|]. cbn [andb].
     destruct (Nat.leb_spec (N.to_nat ((m + 7) / 8)) 16); [|lia]. eexists. reflexivity.
 Qed.
 
@@ -165,11 +181,11 @@ Lemma C17_v0_net_from_api_preserves_wf_refuted :
 Proof.
   exists (PLabeled [100] [49; 48; 46; 48; 46; 48; 46; 48] 300), (NLab4 [100] 167772160 44).
   split; [vm_compute; reflexivity|]. split; [|vm_compute; reflexivity].
-  intros [_ [Hm _]]. lia.
+  intros [[_ [Hm _]] _]. lia.
 Qed.
 
 Example nlri_examples :
-  wf_nlri (NLab4 [100; 3] 167772160 24) /\ wf_nlri (NV6 1 128)
+  wf_nlri (NLab4 [100; 3] 167772160 8) /\ wf_nlri (NV6 1 128)
   /\ net_from_api v6_parse (PLabeled [100] [49; 48; 46; 48; 46; 48; 46; 48] 300) = None
   /\ net_from_api v6_parse (nlri_to_api v6_print (NV6 1 128)) = Some (NV6 1 128).
 Proof.
